@@ -23,9 +23,18 @@ Definition toy_size (r : req Qc) : nat :=
   | RqMvn mean _ size => (size * length mean)%nat
   end.
 
+(* integer answers stay inside the requested range *)
+Definition toy_int (r : req Qc) (v : Z) : Z :=
+  match r with
+  | RqChoice n _ => (v mod Z.of_nat n)%Z
+  | RqRandint2 lo hi => (lo + v mod (hi - lo))%Z
+  | RqRandint high _ => (v mod high)%Z
+  | _ => v
+  end.
+
 Definition ToyRng : RngOps Qc nat := {|
   draw_r := fun g r => (toy_vals g (toy_size r), S g);
-  draw_z := fun g r => (map (fun i => Z.of_nat (g + i)) (seq 0 (toy_size r)), S g);
+  draw_z := fun g r => (map (fun i => toy_int r (Z.of_nat (g + i))) (seq 0 (toy_size r)), S g);
   create := fun z => Z.to_nat z
 |}.
 
